@@ -124,6 +124,9 @@ def effective_strategy(scn: Dict[str, Any]) -> Optional[Dict[str, Any]]:
     return scn['client_strategy'] if scn['request_strategy'] == 'unset' else scn['request_strategy']
 
 
+_JITTER_RESETS: List[Any] = []
+
+
 def build_strategy(desc: Optional[Dict[str, Any]]) -> Optional[pj_retry.RetryStrategy]:
     if desc is None:
         return None
@@ -136,6 +139,10 @@ def build_strategy(desc: Optional[Dict[str, Any]]) -> Optional[pj_retry.RetryStr
         def jitter() -> float:  # noqa: F811
             calls['n'] += 1
             return 0.25 * calls['n']
+
+        # the sequence restarts with every request of the scenario, so that how many values an implementation
+        # draws ahead for one request (lazily or eagerly) cannot influence the pauses of the next request
+        _JITTER_RESETS.append(lambda: calls.__setitem__('n', 0))
     if b['family'] == 'periodic':
         backoff: Any = pj_retry.PeriodicBackoff(attempts=b['attempts'], interval=b['interval'], jitter=jitter)
     elif b['family'] == 'exponential':
@@ -314,6 +321,8 @@ def run_scenario(w: World, scn: Dict[str, Any], client_async: bool, suffix: str 
             obs.request = pjrpc.BatchRequest(*[pjrpc.Request('flaky', [t], i) for t, i in zip(toks, ids)])
             op = lambda: b.send(obs.request, **send_kw)  # noqa: E731
 
+    for reset in _JITTER_RESETS:
+        reset()
     start = len(w.history)
     w.rec(node, 'caller.invoke', req_kind=kind, via=via)
     try:
